@@ -9,7 +9,9 @@ predicates TRANSLATED from the Go source (`PortMapping.IsValid`, `CanBeAccessedB
 
 Quantifiers: every world (any finite set of mappings in any state, any clock), every connection identity,
 every request (any strings as mapping id / secret / resume token, malformed payloads), every tunnel state at
-arrival (no bridge, bridge waiting, bridge served, route to this or another node).  No bounds.
+arrival (no bridge, bridge waiting, bridge served, route to this or another node) and — `C04_main_dyn`,
+`attach_entitled_dyn` — every bridge or route, of any mapping, on this or another node, that appears while a
+request that found nothing at arrival is polling.  No bounds.
 
 Hypothesis `identWF` (decidable): a connection carries a client id only together with the authenticated
 flag.  It is what the auth handlers guarantee (property C03; tied below by the skeletons of
@@ -291,5 +293,25 @@ example : entitledB wWitness targetClient secretReq (.bridge "M" false) = true :
 example : openTunnel wWitness targetClient midReq (.bridge "M" false) = refuse := by decide
 example : openTunnel wWitness nobody emptyReq (.bridge "M" false) = refuse := by decide
 example : entitledB wWitness targetClient midReq (.bridge "M" false) = false := by decide
+
+/-! ### tunnel state changing during the request -/
+
+def wTwo : World :=
+  { mappings := [⟨"M", 11, 22, "s3cretM", "active", false, none⟩, ⟨"F", 33, 34, "s3cretF", "active", false, none⟩],
+    now := 1000, nodeID := "node-A" }
+def targetOfF : ConnIdent := ⟨true, 34, true⟩
+def secretReqF : Req := ⟨true, "F", "verif-tunnel-01", "s3cretF", ""⟩
+
+-- the rightful target, polling, joins the bridge of ITS mapping when the listen client opens it
+example : openTunnelDyn wTwo targetClient secretReq .none (.route "M" "node-A" true) = ⟨.ok, .target, .switch⟩ := by decide
+-- and is piped to the other node when the tunnel is opened there
+example : (openTunnelDyn wTwo targetClient secretReq .none (.route "M" "node-B" false)).attach = .forward "node-B" := by decide
+-- F's target, acknowledged for F at arrival, is NOT attached to M's bridge that appears under the same tunnel id
+example : openTunnelDyn wTwo targetOfF secretReqF .none (.route "M" "node-A" true) = ⟨.ok, .none, .err⟩ := by decide
+example : openTunnelDyn wTwo targetOfF secretReqF .none (.route "M" "node-B" false) = ⟨.ok, .none, .err⟩ := by decide
+-- what `holdsDyn` rejects: F's target as target of M's late bridge, reading M's bytes (the observation made on a
+-- tree where `processCrossNodeForward` takes the local-bridge shortcut before comparing the mappings)
+example : holdsDyn wTwo targetOfF secretReqF .none (.route "M" "node-A" true) ⟨.ok, .target, true⟩ = false := by decide
+example : holdsDyn wTwo targetOfF secretReqF .none (.route "M" "node-A" true) ⟨.ok, .none, false⟩ = true := by decide
 
 end Tunnox.C04
